@@ -42,7 +42,7 @@ def lean_stage(prop, tier, translated=False):
         import py2lean_gridder
 
         def pre():
-            st, detail = {"coords": py2lean.main_coords, "utils": py2lean.main_utils, "io": py2lean.main_io, "base": py2lean.main_base, "chain": py2lean.main_chain, "score": py2lean.main_score, "neighbors": py2lean.main_neighbors, "grid": py2lean.main_grid, "blocks": py2lean.main_blocks, "ls": py2lean.main_ls, "gridder": py2lean_gridder.main_gridder, "mask": py2lean_gridder.main_mask, "cvsplit": py2lean_gridder.main_cvsplit, "windows": py2lean_gridder.main_windows, "modelsel": py2lean_gridder.main_modelsel, "blocksplit": py2lean_gridder.main_blocksplit, "distmask": py2lean_gridder.main_distmask, "vector": py2lean_gridder.main_vector, "fit": py2lean_gridder.main_fit, "makegrid": py2lean_gridder.main_makegrid, "blockmean": py2lean_gridder.main_blockmean}.get(translated, py2lean.main_kernels_and_trend)()
+            st, detail = {"coords": py2lean.main_coords, "utils": py2lean.main_utils, "io": py2lean.main_io, "base": py2lean.main_base, "chain": py2lean.main_chain, "score": py2lean.main_score, "neighbors": py2lean.main_neighbors, "grid": py2lean.main_grid, "blocks": py2lean.main_blocks, "ls": py2lean.main_ls, "gridder": py2lean_gridder.main_gridder, "mask": py2lean_gridder.main_mask, "cvsplit": py2lean_gridder.main_cvsplit, "windows": py2lean_gridder.main_windows, "modelsel": py2lean_gridder.main_modelsel, "blocksplit": py2lean_gridder.main_blocksplit, "distmask": py2lean_gridder.main_distmask, "vector": py2lean_gridder.main_vector, "fit": py2lean_gridder.main_fit, "makegrid": py2lean_gridder.main_makegrid, "blockmean": py2lean_gridder.main_blockmean, "gridcoords": py2lean_gridder.main_gridcoords}.get(translated, py2lean.main_kernels_and_trend)()
             res["translator"] = st + (": " + detail if detail else "")
     ok, log = C.lake_build(targets, pre=pre)
     res["build_ok"] = ok
@@ -260,11 +260,11 @@ def check(P, prop, tier, seed, t0):
         tkind = getattr(P, "TRANSLATED", False)
         if lean["broken"] and tkind and lean["translator"].startswith("changed"):
             import gensearch
-            found, gstats = gensearch.search("utils" if tkind in ("cvsplit", "blockmean") else "coords" if tkind in ("windows", "blocksplit") else tkind if tkind in ("coords", "utils", "io", "base", "chain", "score", "neighbors", "grid", "blocks", "ls", "gridder", "mask", "cvsplit", "modelsel", "distmask", "vector", "fit", "makegrid") else "kernels")
+            found, gstats = gensearch.search("utils" if tkind in ("cvsplit", "blockmean") else "coords" if tkind in ("windows", "blocksplit", "gridcoords") else tkind if tkind in ("coords", "utils", "io", "base", "chain", "score", "neighbors", "grid", "blocks", "ls", "gridder", "mask", "cvsplit", "modelsel", "distmask", "vector", "fit", "makegrid") else "kernels")
             gen_search = gstats
             if found:
                 p = write_replay(prop, "translated-definition-fails",
-                                 {"broken": broken, "translated_kind": "utils" if tkind in ("cvsplit", "blockmean") else "coords" if tkind in ("windows", "blocksplit") else tkind if tkind in ("coords", "utils", "io", "base", "chain", "score", "neighbors", "grid", "blocks", "ls", "gridder", "mask", "cvsplit", "modelsel", "distmask", "vector", "fit", "makegrid") else "kernels",
+                                 {"broken": broken, "translated_kind": "utils" if tkind in ("cvsplit", "blockmean") else "coords" if tkind in ("windows", "blocksplit", "gridcoords") else tkind if tkind in ("coords", "utils", "io", "base", "chain", "score", "neighbors", "grid", "blocks", "ls", "gridder", "mask", "cvsplit", "modelsel", "distmask", "vector", "fit", "makegrid") else "kernels",
                                   "gen_inputs": found, "search": gstats, "seed": seed, "tier": tier,
                                   "note": "the definition regenerated from /repo's source no longer equals the proved model; "
                                           "at these inputs the real function in /repo also departs from the proved value"})
